@@ -1,5 +1,6 @@
 import MindsVerif.Model.SemAgg
 import MindsVerif.Model.SemSet
+import MindsVerif.Model.SemNames
 /-! Line protocol driver for the round-5 models of C08 (select lists with aggregates; set operations).
 
 agg    <kind> <c0> <c1> <limit|-> ; <targets> ; <t0 rows> ; <t1 rows>
@@ -14,6 +15,8 @@ setq   <tree> ; <rows of table 0> ; <rows of table 1> ; <rows of table 2>
        tree ::= op <union|unionAll|intersect|except> tree tree
               | sel <tbl> <cols i,j> <distinct 0|1> <group 0|1> <order e.g. 0a,1d | -> <limit|-> <offset|->
   ->   steps=<F(tbl;cols;d;g;order;limit;offset) … U(k;left;right)> result=<n> | plan=<rows> | query=<rows>
+names|<alias>|<column name>|<col>|<col>|…      (fields separated by `|`; any other character may occur in a name)
+  ->   bare=<parts of bareColumn [alias, name] joined by |> idx=<Scope.resolve of it | -> dotted=<parts of dottedColumn> didx=<…>
 rows ::= row/row/…  row ::= v,v,v  v ::= <int> | N      (empty table: `.`) -/
 open MindsVerif.Sem
 
@@ -166,7 +169,19 @@ def handleSet (body : String) : String :=
     | _ => "bad-line"
   | _ => "bad-line"
 
+def handleNames (body : String) : String :=
+  match ((body.splitOn "\n").headD "").splitOn "|" with
+  | a :: n :: cols =>
+    let sc : Scope := { alias := a.toList, cols := cols.map (·.toList) }
+    let show_ (c : Ident) := "|".intercalate (c.map String.ofList)
+    let idx (o : Option Nat) := match o with | some i => toString i | none => "-"
+    let b := bareColumn [a.toList, n.toList]
+    let d := dottedColumn [a.toList, n.toList]
+    s!"bare={show_ b} idx={idx (sc.resolve b)} dotted={show_ d} didx={idx (sc.resolve d)}"
+  | _ => "bad-line"
+
 def handle (line : String) : String :=
+  if line.startsWith "names|" then handleNames (line.drop 6).toString else
   if line.startsWith "aggapi " then handleAggApi (line.drop 7).toString else
   if line.startsWith "agg " then handleAgg (line.drop 4).toString else
   if line.startsWith "setq " then handleSet (line.drop 5).toString else "bad-line"
